@@ -127,12 +127,22 @@ def scenarios_for(prop: str, tier: str, seed: int = 0) -> List[Scenario]:
             if thorough:
                 tree_ops += [[('insert', 0), ('remove', 1), ('compute_some', 2)], [('compute_some', 0), ('remove', 0), ('remove', 1), ('remove', 2)]]
             tree_ops += [[('clear',), ('len',), ('insert', 0), ('len',)]]
+            if prop == 'C03':
+                # a reference handed out under the guard must survive whatever is done to that entry afterwards (tree-bin arms)
+                tree_ops += [[('get', 0), ('compute_some', 1)], [('get_key_value', 0), ('insert', 1)], [('get', 0), ('remove', 1)], [('get', 0), ('compute_none', 1), ('insert', 0)], [('get', 0), ('clear',)]]
             for i, ops in enumerate(tree_ops):
                 add('%s/tree/cap40/%d' % (hasher, i), hasher=hasher, capacity=40, prefill=pre, ops=ops, universe=12, retain_rest=(hasher == 'const'))
             # a tree bin that has shrunk (without being untreeified) is moved by a resize: all nodes on one side / split
             for j, victims in enumerate(([10, 9, 8, 7], [10, 9, 8, 7, 6], [0, 1, 2, 3], [0, 1, 2, 3, 4], [5, 4, 6, 3, 7])):
                 ops = [('remove', ('c', v)) for v in victims] + [('reserve', ('c', 100)), ('get', 0), ('insert', 1)]
                 add('%s/tree/shrunk-then-resized/%d' % (hasher, j), hasher=hasher, capacity=40, prefill=list(range(11)), ops=ops, universe=12)
+        # partial collisions: four full hashes in one tree bin, several keys per hash (the tree is ordered by (hash, key): lookups
+        # must keep using the hash below an equal-hash node)
+        for i, ops in enumerate([[('insert', 0), ('remove', 1)], [('get', 0), ('get_key_value', 1)], [('compute_some', 0), ('remove_entry', 1)], [('try_insert', 0), ('contains_key', 1)]]):
+            add('mixed/tree/cap40/%d' % i, hasher='mixed', capacity=40, prefill=[0, 5, 10, 15, 1, 6, 11, 12, 2, 7, 13, 3], ops=ops, universe=16)
+        # a tree bin whose entries ALL carry the new-table bit (moves as a whole to bin i+n; the old TreeBin is reused) / none does
+        add('split/tree/all-high', hasher='split', capacity=40, prefill=[1, 3, 5, 7, 9, 11, 13, 15, 17, 19], ops=[('reserve', ('c', 100)), ('get', 0), ('remove', 1)], universe=20)
+        add('split/tree/all-low', hasher='split', capacity=40, prefill=[0, 2, 4, 6, 8, 10, 12, 14, 16, 18], ops=[('reserve', ('c', 100)), ('get', 0), ('remove', 1)], universe=20)
         # tree bins split by a resize into two halves (keys collide in 64 bins, differ in bit 6)
         add('split/tree/split', hasher='split', capacity=40, prefill=list(range(12)), ops=[('reserve', ('c', 100)), ('get', 0), ('remove', 1)], universe=13)
     if prop in ('C03', 'C04', 'C02'):
@@ -144,11 +154,13 @@ def scenarios_for(prop: str, tier: str, seed: int = 0) -> List[Scenario]:
     if prop == 'C06':
         # insertion/removal orders over colliding keys: equal hashes and same-bin/different-hash; even keys are prefilled
         # (the bin is built by treeification), the symbolic keys range over stored and absent (odd) keys
-        for hasher in ('const', 'samebin'):
-            for n_pre in ((9,) if not thorough else (9, 10, 11, 12, 14)):
+        for hasher in ('const', 'samebin', 'mixed'):
+            for n_pre in ((9,) if not thorough else ((9, 10, 11, 12, 14) if hasher != 'mixed' else (9, 12))):
                 pre = list(range(0, 2 * n_pre, 2))
                 uni = 2 * n_pre + 1
                 scripts = {'ins-ins': [('insert', 0), ('insert', 1)], 'rem-rem': [('remove', 0), ('remove', 1)], 'ins-rem': [('insert', 0), ('remove', 1)]}
+                if hasher == 'mixed' and not thorough:
+                    scripts = {'ins-rem': [('insert', 0), ('remove', 1)], 'rem-rem': [('remove', 0), ('remove', 1)]}
                 if thorough:
                     scripts.update({'ins-ins-ins': [('insert', 0), ('insert', 1), ('insert', 2)], 'rem-ins-rem': [('remove', 0), ('insert', 1), ('remove', 2)]})
                 for nm, ops in scripts.items():
@@ -181,6 +193,8 @@ def scenarios_for(prop: str, tier: str, seed: int = 0) -> List[Scenario]:
             uni = 3 if not pre else 11
             for op in ('compute_some', 'compute_none'):
                 add('%s/%s/panic1' % (hasher, op), hasher=hasher, capacity=cap, prefill=pre, ops=base + [(op, 0), ('insert', 1), ('remove', 2)], universe=uni, panic_at=1)
+                # ... and the same kind of operation again from the same thread, on the same and on other keys of the bin
+                add('%s/%s/panic1-then-again' % (hasher, op), hasher=hasher, capacity=cap, prefill=pre, ops=base + [(op, 0), ('compute_some', 1), ('compute_none', 0), ('get', 1)], universe=uni, panic_at=1)
             for op in ('retain', 'retain_force'):
                 for i in (range(1, n_entries + 1) if (thorough or not pre) else (1, 2, 5, 10)):
                     add('%s/%s/panic%d' % (hasher, op, i), hasher=hasher, capacity=cap, prefill=pre, ops=base + [(op,), ('insert', 1), ('remove', 2)], universe=uni, panic_at=i)
